@@ -36,9 +36,14 @@ static int spec_dissect(const URI_CHAR *t, int n, struct sq_item item[VN + 1]) {
 
 /* log of the contract stub stubs/append_query_item.c */
 #define AQ_MAX 8
-extern int g_aq_n;
-extern const URI_CHAR *g_aq_kf[AQ_MAX], *g_aq_ka[AQ_MAX], *g_aq_vf[AQ_MAX], *g_aq_va[AQ_MAX];
-extern int g_aq_p2s[AQ_MAX], g_aq_br[AQ_MAX], g_aq_effective[AQ_MAX];
+#ifdef VREPLAY   /* the native replay links the real uriAppendQueryItem, not the stub: the log exists but stays empty */
+# define AQ_EXTERN
+#else
+# define AQ_EXTERN extern
+#endif
+AQ_EXTERN int g_aq_n;
+AQ_EXTERN const URI_CHAR *g_aq_kf[AQ_MAX], *g_aq_ka[AQ_MAX], *g_aq_vf[AQ_MAX], *g_aq_va[AQ_MAX];
+AQ_EXTERN int g_aq_p2s[AQ_MAX], g_aq_br[AQ_MAX], g_aq_effective[AQ_MAX];
 
 /* uriDissectQueryMallocExMm with uriAppendQueryItem replaced by its contract stub: where the text is split, in which
  * order the items are appended, options passed through, count, failure handling */
@@ -192,4 +197,78 @@ void h_roundtrip(void) {
 	(void)URI_FUNC(FreeQueryListMm)(back, &vmm);
 	VPOST("C13", g_live == 0, "FreeQueryListMm releases every block of the list");
 	(void)cstr_len;
+}
+
+/* uriComposeQueryMallocExMm: the result block is requested from the supplied manager with a size computed in characters
+ * (required + 1 characters), holds exactly the text uriComposeQueryEx writes, and is the only block outstanding;
+ * a refused request gives URI_ERROR_MALLOC with nothing outstanding and *dest untouched.
+ * The manager here is a one-block arena: a fixed array whose cells behind the requested size are nondeterministic
+ * canaries (heap objects of symbolic size are very expensive in CBMC; the requested size is still exact: a cell that is
+ * not completely inside the requested bytes must keep its canary - so a size computed in bytes for the wide type fails). */
+#define CM_CELLS (OUTMAX + 4)
+static URI_CHAR cm_arena[CM_CELLS], cm_canary[CM_CELLS];
+static size_t cm_size; static int cm_reqs, cm_live, cm_bad, cm_refuse;
+static void *cm_take(size_t size, int zero) {
+	int i;
+	cm_reqs++;
+	if (cm_refuse || cm_reqs > 1 || size > sizeof(cm_arena)) return NULL;
+	cm_size = size; cm_live++;
+	for (i = 0; i < CM_CELLS; i++) cm_arena[i] = (zero && (size_t)(i + 1) * sizeof(URI_CHAR) <= size) ? 0 : cm_canary[i];
+	return cm_arena;
+}
+static void *cm_malloc(UriMemoryManager *m, size_t size) { (void)m; return cm_take(size, 0); }
+static void *cm_calloc(UriMemoryManager *m, size_t n, size_t size) { (void)m; if (n != 0 && size > ((size_t)-1) / n) { cm_reqs++; return NULL; } return cm_take(n * size, 1); }
+static void *cm_realloc(UriMemoryManager *m, void *p, size_t size) { (void)m; (void)p; (void)size; cm_bad = 1; return NULL; }
+static void *cm_reallocarray(UriMemoryManager *m, void *p, size_t n, size_t size) { (void)m; (void)p; (void)n; (void)size; cm_bad = 1; return NULL; }
+static void cm_free(UriMemoryManager *m, void *p) { (void)m; if (p != NULL) { if (p != (void *)cm_arena || cm_live != 1) cm_bad = 1; cm_live--; } }
+static UriMemoryManager cmm = { cm_malloc, cm_calloc, cm_realloc, cm_reallocarray, cm_free, NULL };
+
+void h_composemalloc(void) {
+	URI_TYPE(QueryList) items[VI];
+	URI_CHAR key[VI][VS + 1], val[VI][VS + 1];
+	URI_CHAR out[OUTMAX + 2], *res = NULL; int required = -3, written = -3, r0, r1, r2, i, j, len;
+	ND_ARR(URI_CHAR, kbuf, VI * VS); ND_ARR(URI_CHAR, vbuf, VI * VS);
+	ND_ARR(URI_CHAR, canary, CM_CELLS);
+	ND_ARR(unsigned char, klen, VI); ND_ARR(signed char, vlen, VI);   /* vlen -1: value NULL */
+	ND(unsigned char, nitems); ND(unsigned char, spaceToPlus); ND(unsigned char, normalizeBreaks); ND(unsigned char, gj); ND(unsigned char, refuse);
+	__CPROVER_assume(nitems >= 1 && nitems <= VI && spaceToPlus <= 1 && normalizeBreaks <= 1 && gj < CM_CELLS && refuse <= 1);
+	for (i = 0; i < VI; i++) {
+		__CPROVER_assume(klen[i] <= VS && vlen[i] >= -1 && vlen[i] <= VS);
+		for (j = 0; j < VS; j++) {
+			key[i][j] = (j < klen[i]) ? kbuf[i * VS + j] : 0; val[i][j] = (j < vlen[i]) ? vbuf[i * VS + j] : 0;
+			__CPROVER_assume(!(j < klen[i]) || key[i][j] != 0);
+			__CPROVER_assume(!(j < vlen[i]) || val[i][j] != 0);
+#ifdef VW
+			__CPROVER_assume(key[i][j] >= 0 && key[i][j] <= 255 && val[i][j] >= 0 && val[i][j] <= 255);
+#endif
+		}
+		key[i][VS] = 0; val[i][VS] = 0;
+		items[i].key = key[i]; items[i].value = (vlen[i] < 0) ? NULL : val[i];
+		items[i].next = (i + 1 < nitems) ? &items[i + 1] : NULL;
+	}
+	for (i = 0; i < CM_CELLS; i++) cm_canary[i] = canary[i];
+	cm_size = 0; cm_reqs = 0; cm_live = 0; cm_bad = 0; cm_refuse = refuse;
+	VCOVER(nitems == VI && klen[0] == VS && vlen[VI - 1] == VS && !refuse, "VI items with full-length key and value, no refusal");
+	VCOVER_END;
+	r0 = URI_FUNC(ComposeQueryCharsRequiredEx)(items, &required, spaceToPlus, normalizeBreaks);
+	__CPROVER_assume(r0 == URI_SUCCESS && required >= 0 && required < OUTMAX);   /* (obligation ComposeQuery.*) */
+	r1 = URI_FUNC(ComposeQueryMallocExMm)(&res, items, spaceToPlus, normalizeBreaks, &cmm);
+	VPOST("C13", !cm_bad && cm_reqs == 1, "ComposeQueryMalloc: one request to the supplied manager, no realloc, no foreign free");
+	if (refuse) {
+		VPOST("C14", r1 == URI_ERROR_MALLOC, "ComposeQueryMalloc: a refused request => URI_ERROR_MALLOC");
+		VPOST("C14,C13", cm_live == 0 && res == NULL, "ComposeQueryMalloc: nothing outstanding and *dest untouched after a failure");
+		return;
+	}
+	VPOST("C17,C14", r1 == URI_SUCCESS && res == cm_arena, "ComposeQueryMalloc succeeds when the request is granted and returns the manager's block");
+	VPOST("C13", cm_live == 1, "ComposeQueryMalloc: exactly the returned string is outstanding");
+	VPOST("C19,C17", cm_size >= ((size_t)required + 1) * sizeof(URI_CHAR), "ComposeQueryMalloc: the block is sized in characters (required + 1 of them)");
+	VPOST("C19,C17,C13", (size_t)(gj + 1) * sizeof(URI_CHAR) <= cm_size || cm_arena[gj] == cm_canary[gj], "ComposeQueryMalloc writes nothing behind the bytes it requested");
+	if (r1 != URI_SUCCESS || res == NULL) return;
+	for (i = 0; i < OUTMAX + 2; i++) out[i] = (URI_CHAR)(0x55);
+	r2 = URI_FUNC(ComposeQueryEx)(out, items, required + 1, &written, spaceToPlus, normalizeBreaks);
+	__CPROVER_assume(r2 == URI_SUCCESS && written >= 1 && written <= required + 1);   /* (obligation ComposeQuery.*) */
+	len = written - 1;
+	VPOST("C17,C19", gj > len || res[gj] == out[gj], "ComposeQueryMalloc: the string is the text uriComposeQueryEx writes, terminator included");
+	cm_free(&cmm, res);
+	VPOST("C13", cm_live == 0 && !cm_bad, "the caller freeing the returned string leaves nothing outstanding");
 }
